@@ -15,11 +15,11 @@ import (
 
 // parsedCase is the real parser's view of one rendered model tree.
 type parsedCase struct {
-	root ast.Node       // the node that corresponds to the model tree pt
-	file *ast.File      // set when the text was parsed as a file
-	src  string         // the rendered text
-	offs [][2]int       // [start,end) byte offsets of the model tokens in src
-	tf   *token.File    // maps positions to offsets
+	root ast.Node    // the node that corresponds to the model tree pt
+	file *ast.File   // set when the text was parsed as a file
+	src  string      // the rendered text
+	offs [][2]int    // [start,end) byte offsets of the model tokens in src
+	tf   *token.File // maps positions to offsets
 }
 
 func (p *parsedCase) off(pos token.Pos) int {
@@ -43,7 +43,7 @@ func parseCase(c *Case, layout string, rnd *rand.Rand) (*parsedCase, error) {
 	src, offs := Layout(c.Toks, layout, func() int { return rnd.Int() })
 	p := &parsedCase{src: src, offs: offs}
 	fset := token.NewFileSet()
-	if c.Ctx == "expr" && isExprKind(c.PT.K) {
+	if c.Ctx != "stmt" && isExprKind(c.PT.K) {
 		e, err := parser.ParseExprFrom(fset, "case.xgo", []byte(src), 0)
 		if err != nil {
 			return p, err
@@ -86,14 +86,14 @@ func parseCase(c *Case, layout string, rnd *rand.Rand) (*parsedCase, error) {
 	return p, nil
 }
 
-// realPreorder lists the nodes under root, parents first, children in field order (comments left out:
+// realPreorder lists the nodes under root, parents first, children in source order (comments left out:
 // the model trees have none).
 func realPreorder(root ast.Node) []ast.Node {
 	var out []ast.Node
 	var rec func(n ast.Node)
 	rec = func(n ast.Node) {
 		out = append(out, n)
-		for _, c := range syntree.Children(n) {
+		for _, c := range syntree.OrderedChildren(n) {
 			rec(c.Node)
 		}
 	}
